@@ -182,9 +182,9 @@ class SmtPrinter(TreeWalker):
         self.write("(%s (" % operator)
 
         for s in formula.quantifier_vars():
-            self.write("(")
-            yield s
-            self.write(" %s)" % s.symbol_type().as_smtlib(False))
+            # a binder is a name, not a term: no annotation here
+            self.write("(%s %s)" % (quote(s.symbol_name()),
+                                    s.symbol_type().as_smtlib(False)))
 
         self.write(") ")
         yield formula.arg(0)
